@@ -99,7 +99,9 @@ def run(v) -> None:
                 z = [1] * n
                 for i in range(t0, t0 + w):
                     z[i] = 9
-            mx, (fn, fd) = rng.choice([4, 6, 8]), rng.choice([(3, 2), (2, 1), (5, 4)])
+            # spacings chosen so that DIFFERENT banks share (kind, largest width, number of templates) - e.g. max 4: (1,2,4) for 2 and (1,2,3) for
+            # 7/4; max 8: (1,2,3,4,6) for 3/2 and (1,2,3,5,8) for 7/4 - all runs of a job share one process
+            mx, (fn, fd) = rng.choice([4, 6, 8, 12]), rng.choice([(3, 2), (2, 1), (5, 4), (7, 4), (9, 5)])
             zs = sorted(z)
             iqr_pos = zs[(3 * n) // 4] > zs[n // 4]       # the invariance clause presupposes a non-zero scale estimate
             cases.append({"api": "MatchedFilter", "kind": "boxcar", "z": z, "mx": mx, "fn": fn, "fd": fd,
@@ -112,6 +114,15 @@ def run(v) -> None:
             temps = [t if any(t) else [1] for t in temps]
             cases.append({"api": "kernel", "kind": "custom", "z": z, "temps": temps, "refs": [rng.randrange(0, len(t)) for t in temps]})
     specs = [{"id": i, "cases": cases[i::14]} for i in range(14)]
+    # histories in ONE process: banks that agree in kind, largest width and number of templates but not in their widths, back to back
+    for si, seq in enumerate([[(4, 2, 1), (4, 7, 4), (4, 2, 1)], [(8, 3, 2), (8, 7, 4), (8, 9, 5), (8, 2, 1)], [(12, 7, 4), (12, 9, 5), (12, 7, 4)]]):
+        for (mx, fn, fd) in seq:
+            n = rng.choice([16, 21, 30])
+            z = [1] * n
+            t0 = rng.randrange(0, n - 3)
+            for i in range(t0, t0 + rng.choice([2, 3])):
+                z[i] = 9
+            specs[si]["cases"].append({"api": "MatchedFilter", "kind": "boxcar", "z": z, "mx": mx, "fn": fn, "fd": fd, "inv": None})
     evs = [e for r in pool.pmap(job, specs, workers=14) for e in r]
     mf_keys = ("a", "z", "kind", "q", "tol", "reldiv", "mx", "fn", "fd", "widths", "bank", "convq", "snrq", "itemp", "peak", "on", "api", "outcome")
     inv_keys = ("a", "tol", "c1", "c2", "snr1", "snr2", "peak1", "peak2", "itemp1", "itemp2", "unique", "outcome")
